@@ -94,6 +94,21 @@ def _relabelled(transition):
     return out
 
 
+def _variable_set(m: str, m1: str, m2: str, l_value):
+    import sympy as sp  # noqa: PLC0415
+
+    from ampform.dynamics.builder import TwoBodyKinematicVariableSet  # noqa: PLC0415
+
+    return TwoBodyKinematicVariableSet(
+        incoming_state_mass=sp.Symbol(m, nonnegative=True),
+        outgoing_state_mass1=sp.Symbol(m1, nonnegative=True),
+        outgoing_state_mass2=sp.Symbol(m2, nonnegative=True),
+        helicity_theta=sp.Symbol("theta_unused", real=True),
+        helicity_phi=sp.Symbol("phi_unused", real=True),
+        angular_momentum=l_value,
+    )
+
+
 class Reference:
     """owner[decay] := builder id, updated per op by an independent reading of the statement."""
 
@@ -229,6 +244,7 @@ def run_history(rx: str, ops: list) -> dict:  # noqa: C901, PLR0912, PLR0915
             # ----- prediction ------------------------------------------------- #
             predicted_calls = set()
             chains: dict[str, list] = {}
+            chain_lib: dict[str, list] = {}
             lib_owners: dict[str, set] = {}
             expect_error = None
             for transition in transitions:
@@ -236,6 +252,8 @@ def run_history(rx: str, ops: list) -> dict:  # noqa: C901, PLR0912, PLR0915
                     cname = "A_{" + builder.naming.generate_amplitude_name(t2) + "}"
                     bag = set()
                     chains.setdefault(cname, []).append(bag)
+                    lib_nodes: list = []
+                    chain_lib.setdefault(cname, []).append(lib_nodes)
                     for node_id in sorted(t2.topology.nodes):
                         info = _node_info(t2, node_id)
                         owner = ref.owner_of(info)
@@ -245,6 +263,10 @@ def run_history(rx: str, ops: list) -> dict:  # noqa: C901, PLR0912, PLR0915
                             bag.add(call)
                         elif owner != "non_dynamic":
                             lib_owners.setdefault(info["parent"][1], set()).add(owner)
+                            l_value = info["l"]
+                            if l_value is None and info["particle"].spin.is_integer():
+                                l_value = int(info["particle"].spin)  # documented fallback
+                            lib_nodes.append((registry[owner], info["particle"], info["m"], tuple(sorted(info["mc"])), l_value))
                             if owner in ("bw_ff", "bw_analytic", "bw_swave", "bw_ffonly", "bw_edw", "non_dynamic_ff") and \
                                     info["l"] is None and not info["particle"].spin.is_integer():
                                 expect_error = "ValueError"
@@ -303,14 +325,39 @@ def run_history(rx: str, ops: list) -> dict:  # noqa: C901, PLR0912, PLR0915
                 if not matched:
                     mismatches.append({"kind": f"chain-dynamics:{rx}",
                                        "detail": f"{cname}: probe factors {sorted(map(str, bag))} match none of the predicted {[sorted(map(str, c)) for c in want]}"})
-                if not lib_owners:
-                    repl = {a: sp.S.One for a in apps}
-                    repl.update({s: sp.S.One for s in expr.free_symbols if s.name.startswith("q_{")})
-                    stripped = expr.xreplace(repl)
-                    base = twin_model.components.get(cname)
-                    if base is None or stripped != base:
-                        mismatches.append({"kind": f"chain-structure:{rx}",
-                                           "detail": f"{cname}: without its probe factors the chain differs from the dynamics-free chain"})
+                repl = {a: sp.S.One for a in apps}
+                repl.update({s: sp.S.One for s in expr.free_symbols if s.name.startswith("q_{")})
+                stripped = expr.xreplace(repl)
+                base = twin_model.components.get(cname)
+                if base is None:
+                    mismatches.append({"kind": f"chain-structure:{rx}", "detail": f"{cname}: no such dynamics-free chain"})
+                    continue
+                # the chain must be the dynamics-free chain times the library lineshapes of its own nodes,
+                # each evaluated on that node's variables (daughters in either order)
+                candidates = chain_lib.get(cname, [[]])
+                ok = False
+                for nodes in candidates:
+                    options = [[]]
+                    for fn_, particle_, m_, (a_, b_), l_ in nodes:
+                        factors = []
+                        for x_, y_ in ((a_, b_), (b_, a_)):
+                            try:
+                                factors.append(fn_(particle_, _variable_set(m_, x_, y_, l_))[0])
+                            except Exception:  # noqa: BLE001, S112
+                                continue
+                        options = [o + [f] for o in options for f in factors]
+                    for option in options:
+                        product = base
+                        for f in option:
+                            product = product * f
+                        if product == stripped:
+                            ok = True
+                            break
+                    if ok:
+                        break
+                if not ok:
+                    mismatches.append({"kind": f"chain-structure:{rx}",
+                                       "detail": f"{cname}: the chain is not the dynamics-free chain times the lineshapes of its own nodes evaluated on their own variables"})
             if set(model.components) != set(twin_model.components):
                 mismatches.append({"kind": f"component-set:{rx}", "detail": "component names differ from dynamics-free twin"})
             # (c) parameter defaults of library builders
